@@ -712,6 +712,17 @@ func (fr *Frame) loopHead(b *ssa.BasicBlock, st *State, r string) {
 			vc.note("loop %d of %s has no invariant (treated as invariant true)", ord, vc.name)
 		}
 	}
+	// trusted facts about the environment at loop entry (listed as assumptions in the evidence)
+	for _, as := range ls.Assumes {
+		ctx := fr.specCtx(st, fr.entry, b, 0)
+		g, err := ctx.evalBool(as.E)
+		if err != nil {
+			vc.unsupportedf("loop %d assume: %v", ord, err)
+			continue
+		}
+		vc.assumeIf(r, g)
+		vc.note("assumed at entry of loop %d of %s: %s", ord, vc.name, as.Text)
+	}
 	// 1. invariants on entry (phis hold their entry values)
 	for i, inv := range ls.Invariants {
 		ctx := fr.specCtx(st, fr.entry, b, 0)
